@@ -249,11 +249,13 @@ class Gen:
     def matrix_action(self, depth):
         r = self.rng
         mats = [s for s in self.pop if s['kind'] == 'matrix']
-        if mats and r.random() < 0.9:
+        if mats and (r.random() < 0.9 or not self.feature('matrix_on_nonmatrix', False)):
             spec = r.choice(mats)
             name, h, w = spec['label'], spec['height'], spec['width']
-        else:
+        elif self.feature('matrix_on_nonmatrix', False):
             name, h, w = (r.choice(self.light_names() or ['missing'])), 2, 2
+        else:
+            name, h, w = 'missing', 2, 2
         if r.random() < 0.5:
             rows, cols = self.matrix_range(h), self.matrix_range(w)
             if rows is None and cols is None:
@@ -395,7 +397,14 @@ class Gen:
                     self.locals.append(idx)
             elif idx not in self.globals:
                 self.globals.append(idx)
+        # the body does not assign the loop's own index variable (what the next pass then sees
+        # is not specified by the manual)
+        newly_protected = idx is not None and idx not in self.protected
+        if newly_protected:
+            self.protected.add(idx)
         body = self.block(depth - 1)
+        if newly_protected and form != 'while':
+            self.protected.discard(idx)
         if form == 'while':
             body.append(('assign', hdr[2], ('expr', ('bin', '+', ('var', hdr[2]), ('num', 1)))))
         if r.random() < 0.25 and self.feature('break'):
